@@ -389,6 +389,8 @@ fn translate_target(world: &mut World, t: &'static Target) -> Res<(String, HashS
             let (text, info, deps) = {
                 let mut tr = new_tr(world, t, lean.clone());
                 let rty = tr.resolve_type(&ty)?;
+                // an array constant is a list (indexing is bounds-checked)
+                let rty = match rty { RTy::VecFn(el) if matches!(*el, RTy::Int(_) | RTy::U64 | RTy::Bool) => RTy::VecList(el), t => t };
                 let x = tr.tr_expr(&e, Some(&rty))?;
                 if x.ty != rty { return Err(tr.err(&e, "constant initialiser has the wrong type")); }
                 let line = e.span().start().line;
@@ -518,6 +520,9 @@ fn mutated_self_fields(block: &syn::Block, borrows: &[(String, Vec<String>)]) ->
     v.out
 }
 
+/// `Vec<S>` / `&[S]` of a flattened struct `S` (bit-manipulating functions): a list of packed values
+pub fn is_packed_list(t: &RTy) -> bool { matches!(t, RTy::VecList(el) if matches!(**el, RTy::Packed(_, _))) }
+
 fn translate_fn(world: &World, t: &'static Target, sig: &syn::Signature, block: &syn::Block, ictx: &ImplCtx) -> Res<(String, FnInfo, HashSet<String>)> {
     let mut lean = match &t.what { What::ClosureFn { suffix, .. } => format!("{}_{}", lean_name(t), suffix), What::PlaceFn => format!("{}_index", lean_name(t)), _ => lean_name(t) };
     // a method named like a field of its (regenerated) struct would clash with the projection of the Lean structure
@@ -594,10 +599,11 @@ fn translate_fn(world: &World, t: &'static Target, sig: &syn::Signature, block: 
                 if let syn::Type::Reference(r) = &*pt.ty {
                     if r.mutability.is_some() {
                         // `&mut S` for a regenerated struct: the parameter is a mutable variable, its final value is part of the result
-                        if bad.is_none() && matches!(ty, RTy::Struct(_)) && matches!(t.what, What::Fn { .. }) { is_inout = true; } else { bad = Some("`&mut` parameter".into()); }
+                        // (`&mut Vec<S>` of a flattened struct `S` in a bit-manipulating function: a list of packed values)
+                        if bad.is_none() && (matches!(ty, RTy::Struct(_)) || is_packed_list(&ty)) && matches!(t.what, What::Fn { .. }) { is_inout = true; } else { bad = Some("`&mut` parameter".into()); }
                     }
                 }
-                if bad.is_none() && matches!(ty, RTy::VecFn(_) | RTy::VecList(_) | RTy::Unit) { bad = Some(tr.err(a, "unsupported parameter type")); }
+                if bad.is_none() && matches!(ty, RTy::VecFn(_) | RTy::VecList(_) | RTy::Unit) && !is_packed_list(&ty) { bad = Some(tr.err(a, "unsupported parameter type")); }
                 if let Some(m) = bad {
                     tr.rust_params.push((name.clone(), RTy::Unit));
                     tr.poisoned.push((name.clone(), m));
